@@ -13,6 +13,7 @@ import (
 	"google.golang.org/grpc"
 	"google.golang.org/grpc/credentials"
 	"google.golang.org/grpc/metadata"
+	"google.golang.org/grpc/peer"
 
 	"verifharness/core"
 )
@@ -44,7 +45,7 @@ func (c *countingRT) RoundTrip(r *http.Request) (*http.Response, error) {
 
 func checkC13(e *core.Env) {
 	curEnv = e
-	e.SetRule("matrix {http, https, in-process, http and https over a unix-domain socket} x {handler succeeds, handler fails with a status} x {creds require security, not} x 4 RPC kinds x credential metadata {disjoint, overlapping caller keys, empty, error} x {peer option, header option present/absent}, caller metadata random per cell; oracle: requests issued (counting RoundTripper), handler's incoming metadata = caller values then credential values per key, peer option and handler peer have an address and TLS auth info on TLS; distinct = matrix cells")
+	e.SetRule("matrix {http, https, in-process, http and https over a unix-domain socket, https with a client that does not verify the certificate chain} x {handler succeeds, handler fails with a status} x {creds require security, not} x 4 RPC kinds x credential metadata {disjoint, overlapping caller keys, empty, error} x {peer option, header option present/absent}, caller metadata random per cell; oracle: requests issued (counting RoundTripper), handler's incoming metadata = caller values then credential values per key, peer option and handler peer have an address and TLS auth info on TLS; distinct = matrix cells")
 	e.SetExhaustive(true)
 	plain := NewHTTPServer(&Service{}, carrierOpt{})
 	tls := NewHTTPServer(&Service{}, carrierOpt{tls: true})
@@ -52,6 +53,8 @@ func checkC13(e *core.Env) {
 	inp := NewInproc(&Service{}, carrierOpt{})
 	unixPlain := NewHTTPServer(&Service{}, carrierOpt{unix: true})
 	unixTLS := NewHTTPMux(&Service{}, carrierOpt{unix: true, tls: true})
+	tlsSkip := NewHTTPServer(&Service{}, carrierOpt{tls: true, skipVerify: true})
+	defer tlsSkip.Close()
 	defer unixPlain.Close()
 	defer unixTLS.Close()
 	defer plain.Close()
@@ -62,7 +65,7 @@ func checkC13(e *core.Env) {
 		c      *Carrier
 		scheme string
 	}
-	carriers := []tcase{{plain, "http"}, {tls, "https"}, {tlsMux, "https"}, {inp, "inproc"}, {unixPlain, "http"}, {unixTLS, "https"}}
+	carriers := []tcase{{plain, "http"}, {tls, "https"}, {tlsMux, "https"}, {inp, "inproc"}, {unixPlain, "http"}, {unixTLS, "https"}, {tlsSkip, "https"}}
 	credKinds := []string{"disjoint", "overlap", "empty", "error"}
 	caseNo := 0
 	reps := e.N(3, 40)
@@ -97,7 +100,7 @@ func runC13Cell(e *core.Env, r *rand.Rand, c *Carrier, scheme string, secure boo
 	creds := &testCreds{secure: secure}
 	switch ck {
 	case "disjoint":
-		creds.md = map[string]string{"cred-token": "t0k3n", "cred-b-bin": "\x00\xffbin"}
+		creds.md = map[string]string{"cred-token": "t0k3n", "cred-b-bin": "\x00\xffbin", "Cred-Upper": "U"}
 	case "overlap":
 		creds.md = map[string]string{"shared-key": "cred-3", "cred-token": "x"}
 	case "empty":
@@ -113,9 +116,17 @@ func runC13Cell(e *core.Env, r *rand.Rand, c *Carrier, scheme string, secure boo
 		sc.Ret = Ret{How: "status", Code: failCode, Msg: "c13"}
 		cell += "|handler-fails"
 	}
+	var peer2 *peer.Peer
 	if withOpts {
+		// the peer option alone, or next to header and/or trailer options, once or twice
 		sc.PeerOpt = true
-		sc.NHdrOpt = 1
+		sc.NHdrOpt = r.Intn(2)
+		sc.NTrlOpt = r.Intn(2)
+		if r.Intn(2) == 0 {
+			peer2 = new(peer.Peer)
+			sc.ExtraOpts = append(sc.ExtraOpts, grpc.Peer(peer2))
+		}
+		cell += fmt.Sprintf("|hdr=%d,trl=%d,peers=%d", sc.NHdrOpt, sc.NTrlOpt, 1+btoi(peer2 != nil))
 	}
 	cc := c.CC
 	var cnt *countingRT
@@ -168,6 +179,7 @@ func runC13Cell(e *core.Env, r *rand.Rand, c *Carrier, scheme string, secure boo
 		want[k] = append([]string(nil), v...)
 	}
 	for k, v := range creds.md {
+		k = strings.ToLower(k) // metadata keys are case-insensitive and reach the handler in lower case
 		want[k] = append(want[k], v)
 	}
 	if ok, why := mdContains(run.HandlerMD, want); !ok {
@@ -183,8 +195,10 @@ func runC13Cell(e *core.Env, r *rand.Rand, c *Carrier, scheme string, secure boo
 			e.Violate("peer/handler-tls", fmt.Sprintf("%s: handler peer auth info is %T on a TLS connection", cell, p.AuthInfo), w)
 		}
 	}
-	if withOpts {
-		p := run.PeerTarget
+	for pi, p := range []*peer.Peer{run.PeerTarget, peer2} {
+		if !withOpts || (pi == 1 && peer2 == nil) {
+			continue
+		}
 		if p == nil || p.Addr == nil || p.Addr.String() == "" {
 			e.Violate("peer/option-addr/"+scheme+"/"+kindClass(kind), cell+": grpc.Peer target has no address", w)
 		} else if wantTLS {
@@ -197,4 +211,11 @@ func runC13Cell(e *core.Env, r *rand.Rand, c *Carrier, scheme string, secure boo
 			e.Violate("peer/option-tls-on-plain", fmt.Sprintf("%s: grpc.Peer target has auth info %T on a plain connection", cell, p.AuthInfo), w)
 		}
 	}
+}
+
+func btoi(b bool) int {
+	if b {
+		return 1
+	}
+	return 0
 }
